@@ -808,6 +808,10 @@ func (g *sgen) offence(kind int, sid uint32) (dispatched bool) {
 		g.simpleReq(sid, "GET", nil)
 		g.windowUpdate(sid, 0)
 		return true
+	case 11: // a trailer section that does not end the stream: a malformed request (RFC 7540 8.1), with table insertions
+		g.frame(frameBytes(1, 4, sid, g.enc.block(g.p, []kv{{k: ":method", v: "POST"}, {k: ":scheme", v: "https"}, {k: ":path", v: "/"}, {k: "x-t", v: "open"}})))
+		g.frame(frameBytes(0, 0, sid, []byte("body")))
+		g.frame(frameBytes(1, 4, sid, g.enc.block(g.p, []kv{{k: "x-trailer", v: "not the end"}, {k: "x-after-t", v: "later"}})))
 	}
 	return false
 }
@@ -833,6 +837,9 @@ func genSrvErr(p *prng, thorough bool, w *bufio.Writer) {
 			sid := g.sid()
 			if p.chance(2, 5) {
 				kind := p.intn(10)
+				if p.chance(1, 8) {
+					kind = 11
+				}
 				g.line("#offence %d %d", kind, sid)
 				if g.offence(kind, sid) {
 					parked = append(parked, sid)
